@@ -54,6 +54,21 @@ def build_events(case):
             kind = rng.choice(RUNTIME)
             events.append((prog, {"kind": kind, "seed": rng.randrange(1 << 30)}))
             continue
+        if r < 0.24 and rng.random() < 0.5:
+            # aimed pair: a variable that a memento function reads is re-bound / mutated, nobody asks for a version, and a
+            # modifier clone of that function is made right away (the clone is asked for its version)
+            users = [i for i, nd in enumerate(prog["nodes"]) if nd["reads"] and nd["kind"] == "memento"]
+            if users:
+                i = rng.choice(users)
+                vj = rng.choice(prog["nodes"][i]["reads"])["v"]
+                res = progs.apply_edit(rng, prog, "var_mutate" if (prog["vars"][vj]["type"] in ("list", "dict") and rng.random() < 0.4)
+                                       else "var_value", force_var=vj)
+                if res is not None:
+                    prog, vdesc = res
+                    vdesc["silent"] = True
+                    nd = prog["nodes"][i]
+                    events += [(prog, vdesc), (prog, {"kind": "clone", "seed": rng.randrange(1 << 30), "of": [nd["mod"], nd["name"]]})]
+                    continue
         if r < 0.3 and rng.random() < 0.4:
             # aimed pair: a function re-executed unchanged and a variable it reads re-bound / mutated, in either
             # order, with nobody asking for a version in between
